@@ -23,6 +23,7 @@ type qOpts struct {
 	mutation     bool
 	dupFields    bool // the same field selected twice in one selection set (merged by a server)
 	safeStrings  bool
+	hostile      bool // strings with bytes Go and GraphQL escape differently, and whitespace runs
 }
 
 type qgen struct {
@@ -93,7 +94,12 @@ func (g *qgen) newVar(typ string, val interface{}, withDefault bool) string {
 	return name
 }
 
+var hostilePool = []string{"bell\a!", "vt\vx", "del\x7f", "soh\x01", "two  spaces", "three   spaces", "tab\tand  spaces", "q\"uote\\back", "nl\nline", "é  ü", "🙂", "plain"}
+
 func (g *qgen) str() string {
+	if g.o.hostile {
+		return hostilePool[g.r.Intn(len(hostilePool))]
+	}
 	if g.o.safeStrings {
 		return []string{"a", "b c", "T"}[g.r.Intn(3)]
 	}
@@ -276,7 +282,8 @@ func (g *qgen) selectionSetIn(def *ast.Definition, depth int, pathKeys []string,
 		parts = append(parts, "__typename")
 	}
 	// fragments
-	if g.o.fragments && depth > 0 && g.p(0.45) {
+	abstract := def.Kind == ast.Interface || def.Kind == ast.Union
+	if depth > 0 && ((g.o.fragments && g.p(0.45)) || (abstract && g.p(0.8))) {
 		conds := []string{}
 		if def.Kind == ast.Object {
 			conds = append(conds, def.Name)
